@@ -304,8 +304,7 @@ func (r *Resolver) onStrBin(g *Scope, name string, t *parser.Type, v *parser.Con
 	}()
 	switch v.Type {
 	case parser.ConstType_ConstLiteral:
-		raw := strings.ReplaceAll(v.TypedValue.GetLiteral(), "\"", "\\\"")
-		return fmt.Sprintf(`"%s"`, raw), nil
+		return fmt.Sprintf(`"%s"`, escapeDoubleQuotes(v.TypedValue.GetLiteral())), nil
 	case parser.ConstType_ConstIdentifier:
 		s := v.TypedValue.GetIdentifier()
 		if s == "true" || s == "false" {
@@ -319,6 +318,21 @@ func (r *Resolver) onStrBin(g *Scope, name string, t *parser.Type, v *parser.Con
 	default:
 	}
 	return "", errTypeMissMatch(name, t, v)
+}
+
+// escapeDoubleQuotes escapes the double quotes of a literal that are not escaped
+// already, so that the literal can be copied into a double quoted go string.
+func escapeDoubleQuotes(s string) string {
+	var sb strings.Builder
+	escaped := false
+	for _, c := range s {
+		if c == '"' && !escaped {
+			sb.WriteByte('\\')
+		}
+		escaped = c == '\\' && !escaped
+		sb.WriteRune(c)
+	}
+	return sb.String()
 }
 
 func (r *Resolver) onEnum(g *Scope, name string, t *parser.Type, v *parser.ConstValue) (string, error) {
